@@ -6,10 +6,12 @@
 extern int g_res_ec, g_res_hc, g_res_wh, g_res_cft;   /* 1: the step was called and reported success */
 #define GHOST_CLOSE_DEFS int g_res_ec, g_res_hc, g_res_wh, g_res_cft;
 #ifdef VERIF_ZCLOSE_VIEW
+#define V_FREES_OWN(...)           /* as an assumption in zck_close's view the step's free() is not modelled */
 #define V_ZC_REQUIRES(x) V_REQUIRES(x)
 #define V_ZC_ENSURES(x) V_ENSURES(x)
 #define V_ZC_ASSIGNS(...) V_ASSIGNS(__VA_ARGS__)
 #else
+#define V_FREES_OWN(...) V_FREES(__VA_ARGS__)
 #define V_ZC_REQUIRES(x)
 #define V_ZC_ENSURES(x)
 #define V_ZC_ASSIGNS(...)
